@@ -5,6 +5,18 @@ import tempfile
 
 from vf import common as C
 
+META = dict(
+    property_id="C13", engine="DomTree", category="model_checking", design_ref="DESIGN.md §4 C13",
+    technique="explicit TLA+ specification (DomTree) model-checked with TLC; every transition of its state graph replayed on the real DOM "
+              "(T), simulated walks replayed (W), random implementation histories trace-validated against the specification (V)",
+    text="TLC checks exhaustively (small constants) that the DOM Core mutation model keeps every tree invariant of the property and that a "
+         "failed operation changes nothing; every transition of that state graph (about 10^6, including all illegal operand combinations) "
+         "is executed on xerces-c's DOM through public calls and the public-getter projection is compared with the specification's successor "
+         "state; long random histories over two documents are validated step by step by the trace specification.",
+    note="Trusted: TLC, the harness's projection through public getters (cross-checked against each other), node identity = creation order. "
+         "Bounds: ids/ops of spec/DomTree*.cfg; names/strings from a small alphabet; renameNode, user data, NS-variants and release are not modelled yet.",
+)
+
 CONSTS = {
     # tier: (exhaustive cfg for TLC's own check, generator cfg, walks, walk depth, V traces, V steps)
     "quick": dict(check="DomTree.quick.cfg", gen="DomTreeGen.quick.cfg", walks=160, wdepth=30, vtraces=6, vsteps=400, vnodes=30),
@@ -14,7 +26,7 @@ CONSTS = {
 
 def _pipe_tlc_to_harness(out, module, cfg, mode, ndocs, exe, simulate=None, depth=None, workers=None, timeout=3000, nproc=8):
     p = C.Piper([exe, mode, str(ndocs)], timeout=timeout, nproc=nproc)
-    res = C.tlc(module, cfg, workers=workers or C.NCPU, on_json=p.feed, simulate=simulate, depth=depth, timeout=timeout, heap="12g")
+    res = C.tlc(module, cfg, workers=workers or C.NCPU, on_chunk=p.feed_chunk, simulate=simulate, depth=depth, timeout=timeout, heap="12g")
     p.close()
     if res.rc not in (0,) or not res.ok:
         # simulation mode ends without "No error" line only on failure; both modes print it on success
